@@ -578,6 +578,12 @@ impl ErasedNode for Node {
         if let Some(Kind::Expert(expert)) = self.kind() {
             expert.observability_change(false)
         }
+        if let Some(Kind::MapRef(mapref)) = self.kind() {
+            /* While unnecessary we are not in our input's parents, so [child_changed] will not
+            keep [did_change] up to date. If the input changes meanwhile we will be stale when
+            we become necessary again, and must then propagate. */
+            mapref.did_change.set(true);
+        }
         debug_assert!(!self.needs_to_be_computed());
         if self.is_in_recompute_heap() {
             state.recompute_heap.remove(self.packed());
